@@ -65,6 +65,7 @@ def bump(key: str, n: int = 1) -> None:
 
 
 def flush_counters() -> None:
+    flush_examples()
     if not _DIRTY[0]:
         return
     _DIRTY[0] = False
@@ -77,7 +78,10 @@ def flush_counters() -> None:
 def reset_counters() -> None:
     _CNT.clear()
     _DIRTY[0] = False
-    for p in core.scratch_root().glob('msgcnt-*.json'):
+    _EX.clear()
+    _EX_DIRTY[0] = False
+    for p in list(core.scratch_root().glob('msgcnt-*.json')) + list(
+            core.scratch_root().glob('msgex-*.json')):
         p.unlink()
 
 
@@ -90,6 +94,48 @@ def collect_counters() -> Dict[str, int]:
         for k, v in json.loads(p.read_text()).items():
             out[k] = out.get(k, 0) + v
     return dict(sorted(out.items()))
+
+
+# first example (event path) of every *tolerated* violation signature: the
+# exploration goes on past a known defect, the property module turns the
+# examples into ordinary violations (matched against known_findings.json by
+# the CLI; `replay` runs without any tolerance)
+_EX: Dict[str, dict] = {}
+_EX_DIRTY = [False]
+
+
+def note_example(sig: str, what: str, w: World) -> None:
+    bump(f'tolerated:{sig}')
+    path = [list(e) for e in getattr(w, 'path', [])]
+    cur = _EX.get(sig)
+    if cur is None or len(path) < len(cur['events']):
+        _EX[sig] = {'signature': sig, 'what': what, 'events': path,
+                    'flow': w.flow_text,
+                    'spec_name': w.spec.get('name', '')}
+        _EX_DIRTY[0] = True
+
+
+def flush_examples() -> None:
+    if not _EX_DIRTY[0]:
+        return
+    _EX_DIRTY[0] = False
+    path = core.scratch_root() / f'msgex-{os.getpid()}.json'
+    tmp = path.with_suffix('.tmp')
+    tmp.write_text(json.dumps(_EX))
+    os.replace(tmp, path)
+
+
+def collect_examples() -> List[dict]:
+    """Shortest recorded example per tolerated signature."""
+    flush_examples()
+    best: Dict[str, dict] = {}
+    for p in sorted(core.scratch_root().glob('msgex-*.json')):
+        for sig, ex in json.loads(p.read_text()).items():
+            cur = best.get(sig)
+            if cur is None or (len(ex['events']), ex['spec_name']) < (
+                    len(cur['events']), cur['spec_name']):
+                best[sig] = ex
+    return [best[k] for k in sorted(best)]
 
 
 # ---------------------------------------------------------------------------
@@ -152,6 +198,17 @@ def _sev(msg: str) -> str:
     return 'CRITICAL' if msg.startswith('failed') else 'INFO'
 
 
+CLUSTER = 60.0       # seconds: deadlines closer than this fire together
+
+
+def long_delays(flow_text: str) -> str:
+    """Retry delays of minutes instead of seconds: a retry timer must not
+    come due by main-loop ticks alone (the clock of a carried-forward world
+    drifts by the self-loop events tried on it; see explore.py), only by a
+    `jump`. The values keep retry and poll (PT15M) deadlines well apart."""
+    return flow_text.replace('*PT5S', '*PT7M30S').replace('*PT7S', '*PT4M')
+
+
 DEVIATIONS = ('hold', 'lose', 'dup', 'early', 'snap', 'pollcmd')
 
 
@@ -162,6 +219,7 @@ class MsgProfile(Profile):
                  deviations: Tuple[str, ...] = DEVIATIONS, **kw):
         kw.setdefault('jump', ('try', 'poll'))
         super().__init__(spec, **kw)
+        self.flow_text = long_delays(self.flow_text)
         self.budget = budget
         self.deviations = tuple(deviations)
 
@@ -170,6 +228,7 @@ class MsgProfile(Profile):
         wrap_pm()
         w = super().make_world()
         w.dev_used = 0
+        w.path = []
         return w
 
     def extra_key(self, w: World):
@@ -189,13 +248,42 @@ class MsgProfile(Profile):
                 n += 1
         return n
 
-    def _jump_kinds(self, w: World) -> Tuple[str, ...]:
-        # a poll timer is only allowed to fire when no poll is outstanding
-        # (poll results come back in seconds, poll intervals are minutes):
-        # this keeps the number of concurrent polls, hence the space, finite
+    def _jump_target(self, w: World) -> Optional[float]:
+        """Where a `jump` goes: to the *last* deadline of the earliest
+        cluster of pending retry/poll deadlines (deadlines less than
+        CLUSTER seconds apart fire together: which of two timers set a few
+        main-loop iterations apart fires first is not a property of the
+        canonical state). None = no jump offered.
+
+        * a poll timer may only fire while no poll is outstanding (poll
+          results come back in seconds, poll intervals are minutes): this
+          keeps the number of concurrent polls, hence the space, finite;
+        * no jump while a jobs-submit is running, and never across the
+          process-pool timeout of a running command (C42's subject)."""
+        if any(p.kind == 'jobs-submit' for p in w.env.pending()):
+            return None
+        kinds = self.jump
         if self._polls_outstanding(w):
-            return tuple(k for k in self.jump if k != 'poll')
-        return self.jump
+            kinds = tuple(k for k in kinds if k != 'poll')
+        if not kinds:
+            return None
+        world_canon(w, with_db=False)
+        cand = sorted(
+            when for when, n in canon._DEADLINES
+            if n.split(':')[0] in kinds)
+        if not cand:
+            return None
+        target = cand[0]
+        for when in cand[1:]:
+            if when - target < CLUSTER:
+                target = when
+            else:
+                break
+        limits = [when for when, n in canon._DEADLINES
+                  if n.split(':')[0] == 'proc']
+        if limits and target > min(limits) - CLUSTER:
+            return None
+        return target
 
     def cmd_variants(self, w, proc):
         v = super().cmd_variants(w, proc)
@@ -205,6 +293,18 @@ class MsgProfile(Profile):
             # cannot be reported as failed any more
             return ['ok']
         return v
+
+    def job_steps(self, w: World, job) -> List[str]:
+        steps = super().job_steps(w, job)
+        if steps and any(
+                p.kind == 'jobs-submit' and job.key in
+                [tuple(j) for j in p.jobs] for p in w.env.pending()):
+            # started before its jobs-submit returned ('early'): the job
+            # does not *finish* before the command returns (the scheduler
+            # would busy-wait for the command at shutdown, which the
+            # environment model cannot interleave with)
+            steps = [s for s in steps if s not in ('succeeded', 'failed')]
+        return steps
 
     def enabled(self, w: World) -> List[tuple]:
         if not w.running:
@@ -223,11 +323,8 @@ class MsgProfile(Profile):
             job = w.env.jobs[jk]
             for i in range(len(job.inflight)):
                 evs.append(('deliver', jk, i))
-        kinds = self._jump_kinds(w)
-        if kinds:
-            world_canon(w, with_db=False)
-            if canon.next_deadline(kinds) is not None:
-                evs.append(('jump',))
+        if self._jump_target(w) is not None:
+            evs.append(('jump',))
         if w.dev_used < self.budget:
             dv = self.deviations
             for jk, step in steps:
@@ -320,14 +417,32 @@ class MsgProfile(Profile):
         w.finish_cmd(idx, variant)
 
     def apply(self, w: World, ev: tuple) -> None:
+        w.path.append(ev)
+        self._apply(w, ev)
+        self._clamp_poll_timers(w)
+
+    @staticmethod
+    def _clamp_poll_timers(w: World) -> None:
+        """State abstraction: a poll timer's attempt counter grows without
+        bound, but `TaskActionTimer.next(no_exhaust=True)` behaves the same
+        for every num >= len(delays) (it repeats the last delay) - clamp it
+        so that repeated polls converge to a finite state space."""
+        if not w.running:
+            return
+        for it in w.schd.pool.get_tasks():
+            t = it.poll_timer
+            if t is not None and t.num is not None and t.delays and \
+                    t.num > len(t.delays):
+                t.num = len(t.delays)
+
+    def _apply(self, w: World, ev: tuple) -> None:
         kind = ev[0]
         if kind == 'cmd':
             _, ckind, jobs, variant = ev
             self._finish(w, ckind, jobs, variant)
         elif kind == 'jump':
             from .harness import CLOCK
-            world_canon(w, with_db=False)
-            when = canon.next_deadline(self._jump_kinds(w))
+            when = self._jump_target(w)
             if when is not None and when > CLOCK.now:
                 CLOCK.now = when
         elif kind == 'deliver':
